@@ -1158,8 +1158,12 @@ void htp_utf8_validate_path(htp_tx_t *tx, bstr *path) {
                 // Override the decoder state because we want to continue decoding.
                 state = HTP_UTF8_ACCEPT;
 
-                // Advance over the consumed byte and reset the byte counter.
-                rpos++;
+                // The byte that ended an unfinished character may be the first byte of
+                // the next one (the converting decoder resumes there, too): look at it
+                // again. A byte that is invalid on its own is stepped over.
+                if (counter == 1) {
+                    rpos++;
+                }
                 counter = 0;
 
                 break;
